@@ -726,6 +726,15 @@ func runC08(c *Ctx) {
 			c.Undecided("typeindex.New no longer fills Index.packages")
 		}
 		isAdd := func(in ssa.Instruction, of ssa.Value) bool {
+			fromPkgOf := func(v ssa.Value) bool {
+				return Derives(v, func(x ssa.Value) bool {
+					pc, ok := x.(*ssa.Call)
+					return ok && pc.Call.IsInvoke() && pc.Call.Method.Name() == "Pkg" && Derives(pc.Call.Value, func(y ssa.Value) bool { return y == of })
+				})
+			}
+			if mu, ok := in.(*ssa.MapUpdate); ok && Derives(mu.Map, IsFieldOf("typeindex.Index", "packages")) && fromPkgOf(mu.Value) {
+				return true // inserted in place
+			}
 			call, ok := in.(*ssa.Call)
 			if !ok {
 				return false
@@ -784,7 +793,27 @@ func runC08(c *Ctx) {
 				pkgLevel := CallTrueEdges(f, func(call *ssa.Call) bool {
 					return strings.HasSuffix(CalleeName(&call.Call), "typesinternal.IsPackageLevel") && len(call.Call.Args) == 1 && Derives(call.Call.Args[0], func(v ssa.Value) bool { return v == obj })
 				})
-				t, path := PathAvoiding(f, lk, isRecord, func(x ssa.Instruction) bool { return isAdd(x, obj) }, pkgLevel)
+				// no package (universe objects) or the indexed package itself: nothing to add
+				trivial := EqEdges(f, func(x, y ssa.Value) bool {
+					fromPkg := Derives(x, func(v ssa.Value) bool {
+						pc, ok := v.(*ssa.Call)
+						return ok && pc.Call.IsInvoke() && pc.Call.Method.Name() == "Pkg" && Derives(pc.Call.Value, func(z ssa.Value) bool { return z == obj })
+					})
+					if !fromPkg {
+						return false
+					}
+					if IsNilConst(y) {
+						return true
+					}
+					return strings.HasSuffix(y.Type().String(), "go/types.Package") && Derives(y, func(v ssa.Value) bool {
+						switch v.(type) {
+						case *ssa.Parameter, *ssa.FreeVar:
+							return true
+						}
+						return false
+					})
+				})
+				t, path := PathAvoiding(f, lk, isRecord, func(x ssa.Instruction) bool { return isAdd(x, obj) }, UnionEdges(pkgLevel, trivial))
 				c.Check(FuncKey(f)+"::package-of-every-used-object-is-indexed", lk.Pos(), t == nil, "a use is recorded for an object whose package was not added to the index's package table (and that is not known to be package-level): Index.Object/Selection start from that table, so a method or field of a package that is not imported directly is invisible to CouldMatchAny and to the call-site enumeration although the pattern matches; path: %s", PathString(f, path))
 			})
 		}
